@@ -17,14 +17,12 @@
 (* A wrong lane, sign, shuffle constant or operand order changes the       *)
 (* result by a whole monomial, i.e. by about A / (number of monomials).    *)
 (***************************************************************************)
-EXTENDS Big, FiniteSets, TLC, Json, IOUtils
+EXTENDS Dyadic, FiniteSets, TLC, Json, IOUtils
 Rec == ndJsonDeserialize(IOEnv.TRACE)
 
 \* a dyadic number  z * 2^e  (z a Big integer)
-Dy(z, e) == [z |-> z, e |-> e]
 \* wire form [s, e, limb...] (finite values only)
-DecD(v) == Dy(Z(v[1], SubSeq(v, 3, Len(v))), v[2])
-DyInt(n) == Dy(ZOf(n), 0)
+DecD(v) == DecDy(v)
 MinI(a, b) == IF a <= b THEN a ELSE b
 
 \* a monomial is [sg |-> 1 | -1, fs |-> sequence of dyadic factors]
@@ -119,6 +117,35 @@ KOf(op, n) ==
       [] op = "quat_mul" -> 10
       [] op = "quat_rot" -> 20
 
+
+\* ---- inverse (C03): M inverse(M) = inverse(M) M = I within epsilon times a condition number that is itself a polynomial ----------
+\* With X = adj(M) / det(M) computed in floating point, the error of X[k][j] is at most c u (P_kj + Perm |X_kj|) / |det|, where
+\* P_kj is the sum of the magnitudes of the monomials of the cofactor behind X_kj and Perm the same for the determinant
+\* (the permanent of |M|).  Multiplying the residuals by |det| keeps everything polynomial:
+\*     |det| |(M X - I)_ij| <= K u sum_k |M_ik| (P_kj + Perm |X_kj|)        and the mirrored bound for X M - I.
+PolyVal(poly) == DySumSeq([i \in 1..Len(poly) |-> MonoVal(poly[i])], 1)
+PolyAbs(poly) == DySumSeq([i \in 1..Len(poly) |-> DyAbs(MonoVal(poly[i]))], 1)
+\* M without row r and column c (1-based), as columns
+Minor(M, r, c) == LET n == Len(M) IN
+                  [cc \in 1..(n - 1) |-> [rr \in 1..(n - 1) |-> M[IF cc < c THEN cc ELSE cc + 1][IF rr < r THEN rr ELSE rr + 1]]]
+CofAbs(M, k, j) == IF Len(M) = 1 THEN Dy1 ELSE PolyAbs(PDet(Minor(M, j, k)))      \* X[k][j] = (-1)^(k+j) det(M without row j, column k) / det
+Ent(A, r, c) == A[c][r]
+InverseOk(ev) ==
+    LET pb == PBits(ev) M == DM(ev.m) X == DM(ev.got) n == Len(M)
+        dp == PDet(M) D == DyAbs(PolyVal(dp)) Perm == PolyAbs(dp)
+        K == DyScale(DyInt(1), 6 - pb)                                            \* 64 u
+        Delta(i, j) == IF i = j THEN Dy1 ELSE Dy0
+        Right(i, j) == DySub(DySumSeq([k \in 1..n |-> DyMul(Ent(M, i, k), Ent(X, k, j))], 1), Delta(i, j))
+        Left(i, j)  == DySub(DySumSeq([k \in 1..n |-> DyMul(Ent(X, i, k), Ent(M, k, j))], 1), Delta(i, j))
+        \* |det| times the error bound of X[k][j], over c u  (a function: evaluated once per entry)
+        EX == [k \in 1..n |-> [j \in 1..n |-> DyAdd(CofAbs(M, k, j), DyMul(Perm, DyAbs(Ent(X, k, j))))]]
+        BR(i, j) == DySumSeq([k \in 1..n |-> DyMul(DyAbs(Ent(M, i, k)), EX[k][j])], 1)
+        BL(i, j) == DySumSeq([k \in 1..n |-> DyMul(EX[i][k], DyAbs(Ent(M, k, j)))], 1) IN
+    /\ DyIsPos(D)
+    /\ \A i \in 1..n : \A j \in 1..n :
+          /\ DyLe(DyMul(D, DyAbs(Right(i, j))), DyMul(K, BR(i, j)))
+          /\ DyLe(DyMul(D, DyAbs(Left(i, j))), DyMul(K, BL(i, j)))
+
 Ok(ev) ==
     LET pb == PBits(ev) IN
     CASE ev.op = "dot" -> LET a == DV(ev.a) b == DV(ev.b) IN Within(PDot(a, b), DecD(ev.got), KOf("dot", Len(a)), pb)
@@ -147,6 +174,7 @@ Ok(ev) ==
       [] ev.op = "reject_from_normalized" -> LET a == DV(ev.a) b == DV(ev.b) g == DV(ev.got) IN
                             \A i \in 1..Len(a) : Within(PRejN(a, b, i), g[i], KOf("reject_from_normalized", Len(a)), pb)
       [] ev.op = "distance_squared" -> LET a == DV(ev.a) b == DV(ev.b) IN Within(PDist2(a, b), DecD(ev.got), KOf("distance_squared", Len(a)), pb)
+      [] ev.op = "inverse" -> InverseOk(ev)
       [] ev.op = "quat_mul" -> LET p == DV(ev.a) q == DV(ev.b) g == DV(ev.got) P == QMulP(QOf(p), QOf(q)) IN
                             \A i \in 1..4 : Within(P[i], g[i], KOf("quat_mul", 4), pb)
       [] ev.op = "quat_rot" -> LET q == DV(ev.a) v == DV(ev.v) g == DV(ev.got) P == QRotP(q, v) IN
